@@ -57,7 +57,28 @@ def _mci_viol(res, stage, prop):
             for r in res[stage]["verdicts"] if r["prop"] == prop]
 
 
+def _c05_viol(res):
+    v = []
+    for r in res["resolve"]["verdicts"]:
+        if r["bad"]:
+            v.append(dict(stage="resolve", id=r["id"], what=[["cell_not_resolved_as_documented"]],
+                          kind="cell", cells=r["bad"][:2], cfg=r["cfg"]))
+    for st in ("resolve", "prec"):
+        for e in res[st]["errs"]:
+            if e["cls"] in ("panic", "crash"):
+                v.append(dict(stage=st, id=e["id"], what=[["compiler_aborts_while_resolving", e["msg"][:120]]],
+                              kind="abort", cfg=e["cfg"]))
+    for r in res["prec"]["verdicts"]:
+        if r["bad"]:
+            v.append(dict(stage="prec", id=r["id"], iid=r["iid"], what=r["bad"], kind="prec"))
+    if res["prec"].get("ngrammars_with_conflicts"):
+        v.append(dict(stage="prec", id="*", what=[["annotated_operator_grammar_still_has_conflicts",
+                                                    res["prec"]["ngrammars_with_conflicts"]]], kind="prec_conf"))
+    return v
+
+
 PROPS = {
+    "C05": dict(stages=["tables", "resolve", "prec"], viol=_c05_viol),
     "C01": dict(stages=["tables", "lr", "mci_lr"],
                 viol=lambda res: _trace_viol(res, "lr", "c01") + _mci_viol(res, "mci_lr", "C01")),
     "C02": dict(stages=["tables", "lr", "mci_lr"],
